@@ -38,3 +38,42 @@ let types2 : (string * ty2 * string list) list = [
   ("CustomPayload", TCustomPayload, ["Payload"]);
 ]
 let consts : (string * string) list = []
+
+(* Observation, not a C14 violation (recorded in DESIGN.md): for these types the UNCHANGED decoder is receiver-dependent -
+   decoding into an object that was decoded into before appends to / keeps the old contents (the stock fastssz
+   `if cap(x)==0 {make}; x = append(x, buf...)` on []byte fields; ztyp ByteList keeping a longer old length, ztyp list
+   decoders appending).  That is the libraries' receiver convention (receivers are expected to be fresh) and every call
+   site in the node decodes into a fresh object; the property quantifies over values and byte strings, not over dirty
+   receivers.  Their `redec` lines are therefore not compared at all. *)
+let receiver_dependent : string list = [
+  "Accept";
+  "AcceptV1";
+  "AccountTrieNodeWithProof";
+  "BodyLegacy";
+  "BodyShanghai";
+  "BytecodeContainer";
+  "BytecodeWithProof";
+  "Capabilities";
+  "ClientInfo";
+  "ConnectionId";
+  "Content";
+  "CustomPayload";
+  "ErrorPayload";
+  "FindContent";
+  "FindEphKey";
+  "HeaderRecord";
+  "HeaderWithProof";
+  "HeaderWithProofH";
+  "LcBootstrapKey";
+  "OfferEphHeader";
+  "OfferEphKey";
+  "Ping";
+  "Pong";
+  "ProofCapella";
+  "ProofDeneb";
+  "ProofRoots";
+  "SSZProof";
+  "StorageTrieNodeWithProof";
+  "TrieNode";
+  "TrieProof";
+]
